@@ -295,7 +295,11 @@ def mon_c08(w, pre, res, queues):
                 p = pre.apps.get(an)
                 if app is None or p is None:
                     continue
-                if p['blacklisted'] or app.blacklisted or p['unschedule']:
+                if p['blacklisted'] or app.blacklisted:
+                    continue
+                # "explicitly marked for unscheduling" is what the harness
+                # asked for on THIS server, not the scheduler's own flag
+                if (sname, an) in w.marked:
                     continue
                 if getattr(app, 'final_rank', None) == UNPLACED:
                     continue
